@@ -144,53 +144,127 @@ REG.macro("int_prefix", ["diff", "root_path"], "path_name(root_path) + '.' + (''
 # an import leaves the scanned tree: its importee is neither the scanned package itself nor below it (whole dotted components)
 REG.macro("leaves_tree", ["prefix", "i"], "not (imp_importee(i) + '.').startswith(rstrip_dots(prefix) + '.')")
 REG.macro("opt_pat", ["o", "p"], "(not is_none(o)) and (p in unwrap(o))")
-REG.macro("opt_pat_excluded", ["o", "s"], "exists(Str, lambda p: opt_pat(o, p) and re_match(p, s))")
 REG.macro("adjusted_limit", ["lim", "level_limit", "diff"],
           "(is_none(lim) == is_none(level_limit)) and implies(not is_none(level_limit), unwrap(lim) == unwrap(level_limit) + (0 if diff == '.' else count_sep(diff, '.') + 1))")
 REG.macro("scan_converted", ["exclusions", "root_path", "module_path", "prefix", "internal", "i"],
           "exists(NamedModule, lambda m: parsed(exclusions, root_path, module_path, m) and imp_contrib(prefix, internal, nm_ast(m), nm_name(m), i))")
 REG.macro("scan_internal", ["exclusions", "root_path", "module_path", "diff"],
           "_get_all_internal_modules(setof(Str, lambda n: scanned(exclusions, root_path, module_path, n)), int_prefix(diff, root_path))")
+
+
+# The composition postcondition 'what reaches the graph constructor', one macro per clause, over: the root / module paths, the dotted path difference, EX = the
+# effective exclusion regexes (a set), eel = exclude_external_libraries, the level limit the CALLER passed, XT = the effective external exclusion regexes (a set),
+# the ghost log of the constructor call. One vocabulary for generate_graph and for the two entry points, so the three statements cannot drift apart. (The sets are
+# macro ARGUMENTS so that they are evaluated once, outside every binder.)
+_PP = ["root", "module", "diff", "EX", "eel", "limit", "XT", "log"]
+_CONV = "scan_converted(EX, root, module, abs_prefix(diff, root, module), scan_internal(EX, root, module, diff), i)"
+_PP_CLAUSES = {
+    # C09: the constructor receives the ADJUSTED limit (levels are counted below module_path)
+    "pp_limit": "adjusted_limit(log.limit, limit, diff)",
+    # C04 / C08 / C10 frame: every scanned module reaches the constructor, whatever the external options are
+    "pp_scan_kept": "forall(Str, lambda n: implies(scanned(EX, root, module, n), n in log.modules))",
+    # C10: externals excluded -> the module list IS the scan (nothing external reaches the constructor)
+    "pp_only_scan": "implies(eel, forall(Str, lambda n: (n in log.modules) == scanned(EX, root, module, n)))",
+    # C10: externals included -> the additional modules are exactly the importees (and their dotted ancestors) of the imports that reach the
+    # constructor and leave the scanned tree, minus those matching an external exclusion pattern
+    "pp_externals": "implies(not eel, forall(Str, lambda n: implies(not scanned(EX, root, module, n), (n in log.modules) == "
+                    "(exists(Imp, lambda i: (i in log.imports) and leaves_tree(int_prefix(diff, root), i) and (not (path_str(root) in imp_importee(i))) "
+                    "and (n == imp_importee(i) or str_anc(n, imp_hname(i)))) and not exists(Str, lambda p: (p in XT) and re_match(p, n))))))",
+    # C10: externals excluded (and no pattern) -> no import to an external module reaches the constructor
+    "pp_no_external_import": "implies(eel and not nonempty(XT), forall(Imp, lambda i: implies(i in log.imports, raw_internal(int_prefix(diff, root), imp_importee(i)))))",
+    # C02 / C08 / C10: the import list handed to the constructor is the converter's output for exactly the parsed files of the scan (closed form) and
+    # the internal modules of the scan (scan_internal: _get_all_internal_modules, a pure function under a sandwich contract, applied to the scanned
+    # module list), filtered: nothing is invented, every import into the scanned tree survives EVERY external option, and without exclusion of
+    # externals nothing is dropped at all
+    "pp_imports_converted": f"forall(Imp, lambda i: implies(i in log.imports, {_CONV}))",
+    "pp_internal_imports_kept": f"forall(Imp, lambda i: implies({_CONV} and dotted_internal(int_prefix(diff, root), imp_importee(i)), i in log.imports))",
+    "pp_unfiltered": f"implies((not eel) and not nonempty(XT), forall(Imp, lambda i: implies({_CONV}, i in log.imports)))",
+}
+for _k, _b in _PP_CLAUSES.items():
+    REG.macro(_k, _PP, _b)
+
+
+def _pipeline_post(root, module, diff, excl, eel, limit, xt):
+    args = ", ".join([root, module, diff, excl, eel, limit, xt, "ghost_ctor"])
+    # exactly one graph is constructed and it is the one returned
+    return ["ghost_ctor.calls == old(ghost_ctor).calls + 1", "result._graph == ghost_ctor.made"] + [f"{k}({args})" for k in _PP_CLAUSES]
+
+
+_GG_ARGS = ("root_path", "module_path", "path_diff_between_root_and_module", "exclusions", "exclude_external_libraries")
 REG.add(Contract("generate_graph", module=M_GG, view="string",
                  params=dict(root_path="Opaque[Path]", module_path="Opaque[Path]", path_diff_between_root_and_module="Str", exclusions="Bag[Str]",
                              exclude_external_libraries="Bool", level_limit="Opt[Int]", external_exclusions="Opt[Bag[Str]]", ghost_ctor="CtorLog"),
                  returns=EG, modifies=["ghost_ctor"], requires=[_GRAMMAR],
                  raises=[("ValueError", "path_diff_between_root_and_module != '.' and not path_below(path_parent(module_path), path_parent(root_path))")],
+                 ensures_on_raise=["ghost_ctor.calls == old(ghost_ctor).calls"],
                  locals=dict(external_exclusions="Opt[Bag[Str]]"),
-                 # proof hint (an obligation itself): the scanned module list, as a collection, IS the set the postconditions name
-                 ghost_at={"imports = _get_imports_from_ast(": ["same_elements(all_modules, setof(Str, lambda n: scanned(exclusions, root_path, module_path, n)))",
+                 ghost_at={
+                           # C09, stated where the context is still small (so that a violation is REFUTED with a model, not merely undecided): from here on the
+                           # local level_limit is the adjusted limit
+                           "all_modules, ast = _get_all_ast_modules(": ["adjusted_limit(level_limit, old(level_limit), path_diff_between_root_and_module)"],
+                           # proof hints (obligations themselves): the scanned module list, as a collection, IS the set the postconditions name
+                           "imports = _get_imports_from_ast(": ["same_elements(all_modules, setof(Str, lambda n: scanned(exclusions, root_path, module_path, n)))",
                                                                "all_modules == setof(Str, lambda n: scanned(exclusions, root_path, module_path, n))"],
                            # ... and the converter's output is the closed form the postconditions name
                            "if external_exclusions is None": [
                                "forall(Imp, lambda i: (i in imports) == scan_converted(exclusions, root_path, module_path, abs_prefix(path_diff_between_root_and_module, root_path, module_path), "
                                "scan_internal(exclusions, root_path, module_path, path_diff_between_root_and_module), i))"]},
-                 ensures=[
-                     # exactly one graph is constructed and it is the one returned
-                     "ghost_ctor.calls == old(ghost_ctor).calls + 1", "result._graph == ghost_ctor.made",
-                     # C09: the constructor receives the ADJUSTED limit (levels are counted below module_path)
-                     "adjusted_limit(ghost_ctor.limit, level_limit, path_diff_between_root_and_module)",
-                     # C04 / C08 / C10 frame: every scanned module reaches the constructor, whatever the external options are
-                     "forall(Str, lambda n: implies(scanned(exclusions, root_path, module_path, n), n in ghost_ctor.modules))",
-                     # C10: externals excluded -> the module list IS the scan (nothing external reaches the constructor)
-                     "implies(exclude_external_libraries, forall(Str, lambda n: (n in ghost_ctor.modules) == scanned(exclusions, root_path, module_path, n)))",
-                     # C10: externals included -> the additional modules are exactly the importees (and their dotted ancestors) of the imports that reach the
-                     # constructor and leave the scanned tree, minus those matching an external exclusion pattern
-                     "implies(not exclude_external_libraries, forall(Str, lambda n: implies(not scanned(exclusions, root_path, module_path, n), (n in ghost_ctor.modules) == "
-                     "(exists(Imp, lambda i: (i in ghost_ctor.imports) and leaves_tree(int_prefix(path_diff_between_root_and_module, root_path), i) and (not (path_str(root_path) in imp_importee(i))) "
-                     "and (n == imp_importee(i) or str_anc(n, imp_hname(i)))) and not opt_pat_excluded(external_exclusions, n)))))",
-                     # C10: externals excluded (and no pattern) -> no import to an external module reaches the constructor
-                     "implies(exclude_external_libraries and not exists(Str, lambda p: opt_pat(external_exclusions, p)), "
-                     "forall(Imp, lambda i: implies(i in ghost_ctor.imports, raw_internal(int_prefix(path_diff_between_root_and_module, root_path), imp_importee(i)))))",
-                     # C02 / C08 / C10: the import list handed to the constructor is the converter's output for exactly the parsed files of the scan (closed form) and
-                     # the internal modules of the scan (scan_internal: _get_all_internal_modules, a pure function under a sandwich contract, applied to the scanned module list),
-                     # filtered: nothing is invented, every import into the scanned tree survives EVERY external option, and without exclusion of externals nothing is dropped
-                     "forall(Imp, lambda i: implies(i in ghost_ctor.imports, scan_converted(exclusions, root_path, module_path, abs_prefix(path_diff_between_root_and_module, root_path, module_path), "
-                     "scan_internal(exclusions, root_path, module_path, path_diff_between_root_and_module), i)))",
-                     "forall(Imp, lambda i: implies(scan_converted(exclusions, root_path, module_path, abs_prefix(path_diff_between_root_and_module, root_path, module_path), "
-                     "scan_internal(exclusions, root_path, module_path, path_diff_between_root_and_module), i) and "
-                     "dotted_internal(int_prefix(path_diff_between_root_and_module, root_path), imp_importee(i)), i in ghost_ctor.imports))",
-                     "implies((not exclude_external_libraries) and not exists(Str, lambda p: opt_pat(external_exclusions, p)), "
-                     "forall(Imp, lambda i: implies(scan_converted(exclusions, root_path, module_path, abs_prefix(path_diff_between_root_and_module, root_path, module_path), "
-                     "scan_internal(exclusions, root_path, module_path, path_diff_between_root_and_module), i), i in ghost_ctor.imports)))",
-                 ],
+                 ensures=_pipeline_post(*_GG_ARGS, "level_limit", "setof(Str, lambda p: opt_pat(external_exclusions, p))"),
                  note=_GRAMMAR_NOTE, properties=["C04", "C08", "C09", "C10"]))
+
+# ---------------------------------------------------------------- pytestarch.py: the two entry points
+if vals.STRING_MODE:
+    # in the string view the glob converter is the function proved under C08 (result == glob_regex(match)), not its opaque abstraction glob2regex
+    REG.contracts["convert_partial_match_to_regex"] = REG.contracts["convert_partial_match_to_regex@str"]
+REG.macro("truthy_opt", ["o"], "(not is_none(o)) and nonempty(unwrap(o))")
+# C13: the three invalid option combinations
+REG.macro("gea_invalid", ["excl", "rexcl", "eel", "ext", "rext"],
+          "(truthy_opt(rexcl) and nonempty(excl)) or (truthy_opt(rext) and truthy_opt(ext)) or (eel and (truthy_opt(ext) or truthy_opt(rext)))")
+# C08: the effective exclusion regexes: the translated glob patterns when `exclusions` is non-empty, else regex_exclusions (None and () both mean: no pattern)
+REG.macro("eff_excl", ["excl", "rexcl", "q"],
+          "(exists(Str, lambda g: (g in excl) and q == convert_partial_match_to_regex(g))) if nonempty(excl) else opt_pat(rexcl, q)")
+# C10: the effective external exclusion regexes, likewise
+REG.macro("eff_ext", ["ext", "rext", "q"],
+          "(exists(Str, lambda g: (g in unwrap(ext)) and q == convert_partial_match_to_regex(g))) if truthy_opt(ext) else opt_pat(rext, q)")
+REG.macro("gea_diff", ["root_path", "module_path"], "dotted_path(path_rel(path_of(module_path), path_of(root_path)))")
+_OPTS = dict(exclusions="Bag[Str]", exclude_external_libraries="Bool", level_limit="Opt[Int]", regex_exclusions="Opt[Bag[Str]]",
+             external_exclusions="Opt[Bag[Str]]", regex_external_exclusions="Opt[Bag[Str]]")
+_OPT_DEFAULTS = dict(exclude_external_libraries="True", level_limit="None", regex_exclusions="None", external_exclusions="None", regex_external_exclusions="None")
+_INVALID = "gea_invalid(exclusions, regex_exclusions, exclude_external_libraries, external_exclusions, regex_external_exclusions)"
+
+
+def _entry_post(root_str, module_str):
+    return _pipeline_post(f"path_of({root_str})", f"path_of({module_str})", f"gea_diff({root_str}, {module_str})",
+                          "setof(Str, lambda q: eff_excl(exclusions, regex_exclusions, q))", "exclude_external_libraries", "level_limit",
+                          "setof(Str, lambda q: eff_ext(external_exclusions, regex_external_exclusions, q))") + [
+        # C10 (validation + composition): with external libraries excluded NO import to a module outside the scanned tree reaches the constructor
+        f"implies(exclude_external_libraries, forall(Imp, lambda i: implies(i in ghost_ctor.imports, "
+        f"raw_internal(int_prefix(gea_diff({root_str}, {module_str}), path_of({root_str})), imp_importee(i)))))"]
+
+
+def _entry_raises(root_str, module_str):
+    return [
+        # C13 / C08 / C10: mutually exclusive exclusion options; external patterns while externals are excluded
+        ("ImproperlyConfigured", _INVALID),
+        # C13: module_path outside root_path
+        ("ValueError", f"(not {_INVALID}) and not path_below(path_of({module_str}), path_of({root_str}))")]
+
+
+REG.add(Contract("get_evaluable_architecture", module=M_PT, view="string",
+                 params=dict(root_path="Str", module_path="Str", **_OPTS, ghost_ctor="CtorLog"), defaults=_OPT_DEFAULTS,
+                 returns=EG, modifies=["ghost_ctor"], requires=[_GRAMMAR],
+                 raises=_entry_raises("root_path", "module_path"),
+                 # C13: an invalid request never builds (let alone returns) an architecture
+                 ensures_on_raise=["ghost_ctor.calls == old(ghost_ctor).calls"],
+                 locals=dict(regex_exclusions="Opt[Bag[Str]]", regex_external_exclusions="Opt[Bag[Str]]"),
+                 ghost_at={"root_as_path = Path(root_path)": [
+                     # proof hints (obligations themselves; stated before the pipeline runs, where the context is small): the local regex_exclusions is the
+                     # effective exclusion set, the local regex_external_exclusions the effective external one
+                     "not is_none(regex_exclusions)",
+                     "same_elements(unwrap(regex_exclusions), setof(Str, lambda q: eff_excl(exclusions, old(regex_exclusions), q)))",
+                     "unwrap(regex_exclusions) == setof(Str, lambda q: eff_excl(exclusions, old(regex_exclusions), q))",
+                     "same_elements(setof(Str, lambda p: opt_pat(regex_external_exclusions, p)), setof(Str, lambda q: eff_ext(external_exclusions, old(regex_external_exclusions), q)))",
+                     "setof(Str, lambda p: opt_pat(regex_external_exclusions, p)) == setof(Str, lambda q: eff_ext(external_exclusions, old(regex_external_exclusions), q))"]},
+                 ensures=_entry_post("root_path", "module_path"),
+                 note=_GRAMMAR_NOTE + "; the default of `exclusions` (DEFAULT_EXCLUSIONS, a module-level tuple) is not modelled: callers pass it explicitly",
+                 properties=["C04", "C08", "C09", "C10", "C13"]))
